@@ -47,9 +47,10 @@ VH_MAIN {
     ASSUME(in.numrecs < (1 << BOX));
 #else
     /* 64-bit extremes: start/count/shape/numrecs unconstrained; the stride of the last dimension is the constant
-     * STRIDE_LAST of this job, the other dimensions' strides range over {1,2,3} */
+     * STRIDE_LAST of this job, the other dimensions have stride 1 (stated bound: keeps every multiplication and
+     * division in the checker by a constant) */
     g_stride[ND - 1] = STRIDE_LAST;
-    for (int i = 0; i + 1 < ND; i++) { ASSUME(in.stride_sel[i] < 3); g_stride[i] = 1 + (long long)in.stride_sel[i]; }
+    for (int i = 0; i + 1 < ND; i++) g_stride[i] = 1;
 #endif
     run_case();
     WITNESS_END();
